@@ -495,6 +495,12 @@ func checkProperty(repo, verif, prop, tier string, seed, timeout int, writeEvide
 		rp := writeReplayStub(verif, prop, o, "locked obligations missing")
 		cr.violations = append(cr.violations, fmt.Sprintf("VIOLATION property=%s replay=%s no-failing-input-found", prop, rp))
 	}
+	// bounded stand-ins registered for this property (labelled bounded in the evidence)
+	bviol, breps, bhard := runBounded(repo, verif, prop, tier, seed)
+	cr.violations = append(cr.violations, bviol...)
+	for _, h := range bhard {
+		cr.hardErrors = append(cr.hardErrors, "bounded: "+h)
+	}
 	cr.wall = time.Since(t0).Seconds()
 	if writeEvidence {
 		level := e.levelOf(verif, prop)
@@ -512,9 +518,9 @@ func checkProperty(repo, verif, prop, tier string, seed, timeout int, writeEvide
 			"functions_under_contract": freps, "obligation_results": oreps,
 			"undecided_not_locked": cr.undecided, "vacuity_checks": map[string]int{"run": smokeTotal, "ok": smokeOK},
 			"locked_classes": len(lock), "known_findings_reported": cr.known,
-			"engine_errors": cr.hardErrors,
-			"explanation":   explanationFor(prop, cr),
-			"arithmetic":    "machine integers are exact bit-vectors (no mathematical-integer abstraction); references are unbounded integers; time.Time is a real number of seconds",
+			"engine_errors": cr.hardErrors, "bounded_checks": breps,
+			"explanation": explanationFor(prop, cr),
+			"arithmetic":  "machine integers are exact bit-vectors (no mathematical-integer abstraction); references are unbounded integers; time.Time is a real number of seconds",
 		}
 		ev["coverage"] = cov
 		os.MkdirAll(filepath.Join(verif, "evidence"), 0o755)
@@ -537,7 +543,7 @@ func checkProperty(repo, verif, prop, tier string, seed, timeout int, writeEvide
 	}
 	// engine errors and vacuity failures are not violations; they make the run unusable
 	for _, he := range cr.hardErrors {
-		if strings.HasPrefix(he, "vacuity:") {
+		if strings.HasPrefix(he, "vacuity:") || strings.HasPrefix(he, "bounded:") {
 			return 2, nil
 		}
 	}
